@@ -28,6 +28,56 @@ func checkC07(c *Ctx) {
 	r077(c, "R07.7 timeout-argument-agreement")
 	// a released request is forwarded only if the balancer it reads still has its rotation (shared with C09)
 	rRotationOnlyRefreshed(c, "R07.8 rotation-written-only-by-the-refresh")
+	// pause returns only when the drain is over: a resume issued after it must not release held requests into targets
+	// that are still refusing (shared with C03)
+	r033(c, "R07.9 gate-before-drain-and-joins")
+	// a rollout deploy updates the LIVE service, so requests held by a pause see the new rollout targets when released
+	rRolloutDeployOnLive(c, "R07.10 rollout-deploy-updates-the-live-service")
+}
+
+// rRolloutDeployOnLive: SetRolloutTargets hands deployTargetsIntoService the service it looked up (not a copy of it): held
+// requests keep the *Service they resolved (K3), and only an update of that object reaches them.
+func rRolloutDeployOnLive(c *Ctx, rule string) {
+	c.floor(rule, 1)
+	fn := c.method("Router", "SetRolloutTargets")
+	dt := c.method("Router", "deployTargetsIntoService")
+	lookup := c.method("Router", "serviceForName")
+	cwo := c.method("Service", "CopyWithOptions")
+	n := 0
+	for _, cs := range callsTo(fn, dt) {
+		n++
+		v := resolve(cs.common().Args[1])
+		live := false
+		if call, ok := v.(*ssa.Call); ok && isCallTo(call.Common(), lookup) {
+			live = true
+		}
+		// (looked up by a helper expanded in place: the value is the lookup's result merged with the helper's "not found")
+		if _, isPhi := v.(*ssa.Phi); isPhi {
+			nLook, other := 0, 0
+			for _, vc := range valueCases(v, cs.instr.Block()) {
+				if isNilConst(vc.val) {
+					continue
+				}
+				if call, ok := vc.val.(*ssa.Call); ok && isCallTo(call.Common(), lookup) {
+					nLook++
+				} else {
+					other++
+				}
+			}
+			live = nLook >= 1 && other == 0
+		}
+		// (looked up through a small helper that returns the table's entry or an error)
+		if e, ok := v.(*ssa.Extract); ok {
+			if call, ok := e.Tuple.(*ssa.Call); ok && call.Call.StaticCallee() != nil {
+				for _, in := range callsTo(call.Call.StaticCallee(), lookup) {
+					_ = in
+					live = true
+				}
+			}
+		}
+		c.ob(rule, "SetRolloutTargets/deploys-into-the-looked-up-service", cs.pos(), live && len(callsTo(fn, cwo)) == 0, true, "the rollout slot of the installed service object must be updated in place (a copy is invisible to requests already holding the service)")
+	}
+	c.ob(rule, "SetRolloutTargets/calls-the-deploy-routine", fn.Pos(), n == 1, true, "")
 }
 
 // newPCModel builds the abstract model of PauseController.
